@@ -1,6 +1,6 @@
 #!/usr/bin/env python3
 """Run a property's check against a seeded change WITHOUT touching /repo:
-   seedtest.py <patch.diff> <Cxx> [quick|thorough]
+   seedtest.py <patch.diff> <Cxx> [quick|thorough] [base-commit]
 Creates a scratch worktree of /repo with the patch applied and a scratch copy of /verif whose harness
 depends on it, runs ./check there, prints the outcome, and removes both."""
 import os, shutil, subprocess, sys, tempfile, time
@@ -11,10 +11,11 @@ def sh(cmd, **kw):
 def main():
     patch, pid = os.path.abspath(sys.argv[1]), sys.argv[2]
     tier = sys.argv[3] if len(sys.argv) > 3 else "quick"
+    base_commit = sys.argv[4] if len(sys.argv) > 4 else "HEAD"     # the /repo commit the patch was written against
     base = tempfile.mkdtemp(prefix="verif-scratch-", dir="/var/tmp")
     repo, verif = os.path.join(base, "repo"), os.path.join(base, "verif")
     try:
-        r = sh("git -C /repo worktree add -q --detach %s HEAD" % repo)
+        r = sh("git -C /repo worktree add -q --detach %s %s" % (repo, base_commit))
         if r.returncode: print(r.stdout); return 2
         r = sh("git -C %s apply --whitespace=nowarn %s" % (repo, patch))
         if r.returncode: print("patch does not apply:\n" + r.stdout); return 2
